@@ -552,8 +552,14 @@ fn gen_admit(kind: &str, count: u64, seed: u64) {
                         if r == 3 && !rng.chance(1, 3) {
                             continue;
                         }
-                        let cfg = json!({"kind": kind, "cap": total, "ttl": -1, "tti": -1, "weigher": true,
-                            "hasher": "id", "nkeys": 4, "lean": false, "seed": 0});
+                        // every third contest runs with a time_to_live and goes on afterwards (below)
+                        let with_ttl = all.len() % 3 == 2;
+                        // every fourth one with weights in units of 2^30: two residents of two units
+                        // already weigh more than u32::MAX together, the capacity exceeds it
+                        // (an even capacity only: the code halves it to decide when the estimator starts)
+                        let wscale: u64 = if all.len() % 4 == 1 && total % 2 == 0 { 1 << 30 } else { 1 };
+                        let cfg = json!({"kind": kind, "cap": total, "ttl": if with_ttl { 5 } else { -1 }, "tti": -1, "weigher": true,
+                            "hasher": "id", "nkeys": 4, "lean": false, "seed": 0, "wscale": wscale});
                         let mut ops: Vec<Value> = Vec::new();
                         let mut push = |ops: &mut Vec<Value>, op: Value| {
                             ops.push(op);
@@ -581,6 +587,21 @@ fn gen_admit(kind: &str, count: u64, seed: u64) {
                             ops.push(json!({"op": "Contains", "k": k}));
                         }
                         ops.push(json!({"op": "Iter"}));
+                        if with_ttl {
+                            // the aftermath of a contest: room is made, a key that may have been a
+                            // victim is written again, and the clock reaches the deadline of the
+                            // first writes (not of the new one): queue nodes left behind by the
+                            // contest would now take the new entry with them
+                            ops.push(json!({"op": "Advance", "d": 2}));
+                            push(&mut ops, json!({"op": "Invalidate", "k": n}));
+                            push(&mut ops, json!({"op": "Invalidate", "k": r}));
+                            push(&mut ops, json!({"op": "Insert", "k": 1, "v": 21, "w": ws[0]}));
+                            ops.push(json!({"op": "Advance", "d": 3}));
+                            for k in 1..=n {
+                                ops.push(json!({"op": if k % 2 == 1 { "Contains" } else { "Get" }, "k": k}));
+                            }
+                            ops.push(json!({"op": "Iter"}));
+                        }
                         all.push(json!({"cfg": cfg, "ops": ops}));
                     }
                 }
@@ -597,6 +618,40 @@ fn gen_admit(kind: &str, count: u64, seed: u64) {
             writeln!(o, "{}", b).unwrap();
             id += 1;
         }
+    }
+}
+
+/// An in-place update that outgrows the cache by more than one eviction batch (500): the first
+/// maintenance run removes one batch, the following runs must remove the rest although they
+/// apply no writes ("which following operations remove").
+fn gen_evict(count: u64, seed: u64) {
+    use std::io::Write;
+    let out = std::io::stdout();
+    let mut o = std::io::BufWriter::new(out.lock());
+    let mut rng = Rng::new(seed);
+    for id in 0..count {
+        let n: u32 = 600 + rng.below(40) as u32;
+        let cfg = json!({"kind": "sync", "cap": n, "ttl": -1, "tti": -1, "weigher": true,
+            "hasher": "mix", "nkeys": n, "lean": true, "seed": rng.below(1000)});
+        let mut ops: Vec<Value> = Vec::new();
+        for k in 1..=n {
+            ops.push(json!({"op": "Insert", "k": k, "v": k, "w": 1}));
+        }
+        ops.push(json!({"op": "Sync"}));
+        if id % 2 == 1 {
+            ops.push(json!({"op": "Advance", "d": 1}));
+        }
+        let big = 1 + rng.below(n as u64) as u32;
+        ops.push(json!({"op": "Insert", "k": big, "v": 1000 + big, "w": n}));
+        ops.push(json!({"op": "Sync"}));
+        ops.push(json!({"op": "Sync"}));
+        for _ in 0..4 {
+            ops.push(json!({"op": "Get", "k": 1 + rng.below(n as u64) as u32}));
+        }
+        ops.push(json!({"op": "Sync"}));
+        ops.push(json!({"op": "Get", "k": big}));
+        ops.push(json!({"op": "Iter"}));
+        writeln!(o, "{}", json!({"id": id, "cfg": cfg, "ops": ops})).unwrap();
     }
 }
 
@@ -669,6 +724,10 @@ pub fn cmd_gen(args: &[String]) {
     if args[0] == "unsync-admit" || args[0] == "sync-admit" {
         let kind = if args[0] == "unsync-admit" { "unsync" } else { "sync" };
         gen_admit(kind, args[2].parse().unwrap(), args[1].parse().unwrap());
+        return;
+    }
+    if args[0] == "sync-evict" {
+        gen_evict(args[2].parse().unwrap(), args[1].parse().unwrap());
         return;
     }
     if args[0] == "sync-reads" {
